@@ -61,10 +61,8 @@ def code_schema(spec, pynames=True, internal=True, shared=None):
     ctx = {"enums": {}, "inputs": {}, "py": py}
     for t in spec["types"]:
         if t["kind"] == "enum":
-            vals = {}
-            for i, v in enumerate(t["values"]):
-                vals[v["name"]] = (i + 1 if i % 2 == 0 else v["name"].lower() + "_") if internal else v["name"]
-            ctx["enums"][t["name"]] = vals
+            from .gen_sdl import enum_internal_values
+            ctx["enums"][t["name"]] = enum_internal_values([v["name"] for v in t["values"]], internal)
         elif t["kind"] == "input":
             ctx["inputs"][t["name"]] = t["fields"]
 
@@ -187,6 +185,54 @@ def _default_lits(schema):
     def one(path, a):
         if a.has_default_value:
             out[path] = print_ast(ast_node_from_value(a.default_value, a.type))
+    for t in schema.types.values():
+        if t.name.startswith("__"):
+            continue
+        if isinstance(t, (ObjectType, InterfaceType)):
+            for f in t.fields:
+                for a in f.arguments:
+                    one("%s.%s(%s)" % (t.name, f.name, a.name), a)
+        elif isinstance(t, InputObjectType):
+            for f in t.fields:
+                one("%s.%s" % (t.name, f.name), f)
+    for d in schema.directives.values():
+        for a in d.arguments:
+            one("@%s(%s)" % (d.name, a.name), a)
+    return out
+
+
+def _enum_view(v, t):
+    """a default value with every enum leaf replaced by the *name of the member
+    holding that internal value* (looked up in the member list, independently
+    of the printer), input-object keys by field name; None elsewhere"""
+    from py_gql.schema import EnumType, InputObjectType, ListType, NonNullType
+    if isinstance(t, NonNullType):
+        return _enum_view(v, t.type)
+    if v is None:
+        return None
+    if isinstance(t, ListType):
+        if isinstance(v, (list, tuple)):
+            return [_enum_view(x, t.type) for x in v]
+        return [_enum_view(v, t.type)]
+    if isinstance(t, EnumType):
+        found = [m.name for m in t.values if m.value == v]
+        return {"member": found[0] if found else "<no member holds %r>" % (v,)}
+    if isinstance(t, InputObjectType):
+        if not isinstance(v, dict):
+            return "<not a dict>"
+        return {f.name: _enum_view(v[f.python_name], f.type) for f in t.fields if f.python_name in v}
+    return None
+
+
+def _default_members(schema):
+    """name-path -> enum-member view of every default value"""
+    from py_gql.schema import InputObjectType, InterfaceType, ObjectType
+
+    out = {}
+
+    def one(path, a):
+        if a.has_default_value:
+            out[path] = _enum_view(a.default_value, a.type)
     for t in schema.types.values():
         if t.name.startswith("__"):
             continue
@@ -351,6 +397,14 @@ def do_c12(case):
                 d = "default literal: %r" % (e,)
             if d:
                 checks.append("rebuilt-defaults-identical: " + d[:300])
+            # enum defaults: the rebuilt schema holds the member that held the
+            # internal value (oracle independent of the printer)
+            try:
+                d = _first_diff(_default_members(schemas[idx]), _default_members(rebuilt))
+            except BaseException as e:  # noqa
+                d = "enum default: %r" % (e,)
+            if d:
+                checks.append("rebuilt-enum-defaults-identical: " + d[:300])
         try:
             again = rebuilt.to_string(**_kwargs(opts))
         except BaseException as e:  # noqa
